@@ -221,3 +221,11 @@ func WSClosed(ws any) bool { return false }
 
 // DropSpawned discards goroutine thunks recorded so far (engine only).
 func DropSpawned() {}
+
+// ParamOr is Param with a default for instances that do not set it.
+func ParamOr(name string, def int) int {
+	if v, ok := rp.Params[name]; ok {
+		return v
+	}
+	return def
+}
